@@ -115,25 +115,36 @@ def classes():
     from spsdk.crypto.signature_provider import SignatureProvider
     from .sbytes import from_bytes
 
+    class _Nums:
+        def __init__(self, **kw):
+            self.__dict__.update(kw)
+
+    class _Curve:
+        def __init__(self, name):
+            self.name = name
+            self.key_size = KEYBITS[name]
+
+    class FakeEcKey:
+        """duck-typed cryptography EllipticCurvePublicKey: only what spsdk's own properties read"""
+
+        def __init__(self, x, y, curve):
+            self._n = _Nums(x=x, y=y)
+            self.curve = _Curve(curve)
+            self.key_size = KEYBITS[curve]
+
+        def public_numbers(self):
+            return self._n
+
     class StubEcc(PublicKeyEcc):
-        """ECC public key with symbolic coordinates; export(NXP) = X||Y fixed width; parse is its inverse."""
+        """ECC public key with symbolic coordinates.  The REAL spsdk properties and export(NXP) run on top of a fake
+        cryptography key object; recreate() skips the library's point validation; signatures are UF."""
 
         def __init__(self, x, y, curve="secp256r1"):
-            self._x, self._y, self._curve = x, y, curve
-            self.key = None
+            self.key = FakeEcKey(x, y, str(getattr(curve, "value", curve)))
 
-        x = property(lambda s: s._x)
-        y = property(lambda s: s._y)
-        curve = property(lambda s: s._curve)
-        coordinate_size = property(lambda s: COORD[s._curve])
-        key_size = property(lambda s: KEYBITS[s._curve])
-        signature_size = property(lambda s: 2 * COORD[s._curve])
-
-        def export(self, encoding=None):
-            n = COORD[self._curve]
-            xb = self._x.to_bytes(n, "big")
-            yb = self._y.to_bytes(n, "big")
-            return SymBytes.make(items_of(xb) + items_of(yb))
+        @classmethod
+        def recreate(cls, coor_x, coor_y, curve):
+            return cls(coor_x, coor_y, curve)
 
         def ident(self):
             return items_of(self.export())
@@ -145,44 +156,46 @@ def classes():
 
         @classmethod
         def parse(cls, data):
-            d = items_of(data)
-            curve = CURVE_BY_LEN[len(d)]
-            n = len(d) // 2
-            return cls(from_bytes(d[:n], "big"), from_bytes(d[n:], "big"), curve)
+            return cls.recreate_from_data(data)
 
         def __eq__(self, o):
-            return isinstance(o, StubEcc) and self._curve == o._curve and bool(SymBytes(self.ident()).eq_term(o.ident()))
+            return isinstance(o, StubEcc) and self.curve == o.curve and bool(SymBytes(self.ident()).eq_term(o.ident()))
 
         def __hash__(self):
             return 7
 
         def __repr__(self):
-            return f"<stub ECC {self._curve}>"
+            return "<stub ECC key>"
 
         __str__ = __repr__
 
+    class FakeRsaKey:
+        def __init__(self, n, e, bits):
+            self._n = _Nums(n=n, e=e)
+            self.key_size = bits
+
+        def public_numbers(self):
+            return self._n
+
     class StubRsa(PublicKeyRsa):
         def __init__(self, n, e, bits):
-            self._n, self._e, self._bits = n, e, bits
-            self.key = None
-
-        n = property(lambda s: s._n)
-        e = property(lambda s: s._e)
-        key_size = property(lambda s: s._bits)
-        signature_size = property(lambda s: s._bits // 8)
+            self.key = FakeRsaKey(n, e, bits)
 
         def ident(self):
-            return items_of(self._n.to_bytes(self._bits // 8, "big")) + items_of(lift_bytes(self._e, 4))
-
-        def export(self, encoding=None, exp_length=None, modulus_length=None):
-            return SymBytes.make(self.ident())
+            return items_of(self.export())
 
         def verify_signature(self, signature, data, *a, **k):
             exp = stubs.uf("SIGN", [self.ident(), items_of(data)], self.signature_size)
             return bool(SymBytes(exp).eq_term(items_of(signature)))
 
+        def __eq__(self, o):
+            return isinstance(o, StubRsa) and bool(SymBytes(self.ident()).eq_term(o.ident()))
+
+        def __hash__(self):
+            return 9
+
         def __repr__(self):
-            return f"<stub RSA {self._bits}>"
+            return "<stub RSA key>"
 
         __str__ = __repr__
 
@@ -216,3 +229,29 @@ def classes():
 
     _CLS.update(StubEcc=StubEcc, StubRsa=StubRsa, StubSP=StubSP)
     return _CLS
+
+
+class StubKeyCertificate(StubCertificate):
+    """Stub certificate carrying a stub RSA public key: body = [ca, bits//512, n (bits/8 bytes), e (3 bytes), opaque]."""
+
+    def __init__(self, body):
+        self.body = list(items_of(body))
+        self.ca = bool(self.body[0])
+        self.bits = int(self.body[1]) * 512
+        self.sig_len = self.bits // 8
+        self.self_signed = True
+        self.signature = bytes(self.sig_len)
+
+    @staticmethod
+    def make_rsa(key, opaque=b"", ca=False):
+        bits = key.key_size
+        return StubKeyCertificate([1 if ca else 0, bits // 512] + key.ident() + list(items_of(opaque)))
+
+    def get_public_key(self):
+        from .sbytes import from_bytes
+        n = self.bits // 8
+        cls = classes()["StubRsa"]
+        return cls(from_bytes(self.body[2: 2 + n], "big"), from_bytes(self.body[2 + n: 5 + n], "big"), self.bits)
+
+    def public_key_hash(self, *a, **k):
+        return stubs.get_hash(self.get_public_key().export())
